@@ -284,7 +284,9 @@ func blockedRequestsInert(c ModelCase) *Violation {
 				}
 			}
 		}
-		if st.ExecErr != "" && inputAccepted(string(in)) {
+		if st.ExecErr != "" && inputAccepted(string(in)) && !(st.After != nil && terminateOf(st.After.Flags) && c.Mode.Kind == "persist") {
+			// what follows an execution error is unspecified — unless it left the (stored)
+			// session blocked: then the later requests are blocked requests like any other
 			return nil
 		}
 		if !st.Cont && c.Mode.Kind != "persist" {
